@@ -287,7 +287,11 @@ Definition dump_closed (ob : obs) : bool :=
 Definition dump_covers (prev ob : obs) : bool :=
   forallb (fun '(m, _) => has_id m (o_maps ob)) (o_maps prev) &&
   forallb (fun '(h, _) => has_id h (o_handles ob)) (o_handles prev).
-Definition dump_ok (prev ob : obs) : bool := dump_closed ob && dump_covers prev ob.
+Definition op_target (o : op) : mid :=
+  match o with OSet m _ _ _ => m | OClear m => m | OPush m => m end.
+(* the dump lists the map operated on, is closed, and forgets nothing *)
+Definition dump_ok (prev : obs) (o : op) (ob : obs) : bool :=
+  dump_closed ob && dump_covers prev ob && has_id (op_target o) (o_maps ob).
 
 Definition obs_empty := OBS [] [] [].
 
@@ -301,12 +305,7 @@ Definition exec (s : store) (o : op) : store :=
 
 (* objects named by an operation exist: implicit maps only once created *)
 Definition allocated (s : store) (m : mid) : bool := - snext s <=? m.
-Definition op_guard (s : store) (o : op) : bool :=
-  match o with
-  | OSet m _ _ _ => allocated s m
-  | OClear m => allocated s m
-  | OPush m => allocated s m
-  end.
+Definition op_guard (s : store) (o : op) : bool := allocated s (op_target o).
 
 Definition mrec_matches (ro rm : mrec) : bool :=
   opt_eqb (m_parent ro) (m_parent rm) && opt_eqb (m_key ro) (m_key rm) &&
@@ -332,7 +331,7 @@ Definition queries_match (s : store) (ob : obs) : bool :=
 Definition step (s : store) (prev : obs) (o : op) (ob : obs) : option store :=
   if op_guard s o then
     let s' := exec s o in
-    if dump_ok prev ob && dump_matches s' ob && queries_match s' ob
+    if dump_ok prev o ob && dump_matches s' ob && queries_match s' ob
     then Some s' else None
   else None.
 
@@ -478,7 +477,7 @@ Definition cleared_ok (prev ob : obs) (m : mid) : bool :=
   end.
 
 Definition obs_ok (sp : spec) (prev : obs) (o : op) (ob : obs) : bool :=
-  dump_ok prev ob &&
+  dump_ok prev o ob &&
   forallb (fun '(m, r) => latest_wins sp m r && backlinks_ok ob m r) (o_maps ob) &&
   forallb (fun '(q, r) => query_ok sp q r) (o_queries ob) &&
   match o with OClear m => cleared_ok prev ob m | _ => true end.
